@@ -761,7 +761,7 @@ func (m *model) judge(t ev.TB, f *fileRec, now time.Time, why string) {
 	}
 	// the same through the commands the documentation names (`gcetcbendorsement inspect payload|signature|mask FILE`
 	// with their default --bytesform into a pipe, and `gcetcbendorsement verify FILE --root_cert`)
-	cliFiles := map[string][]byte{"e.binarypb": raw, "roots.pem": rootsPEM}
+	cliFiles := map[string][]byte{"e.binarypb": raw, "roots.pem": rootsPEM, "root.der": m.root.Raw}
 	if !f.cliDone {
 		f.cliDone = true
 		cp, e1, p1 := endorsementCLI(cliFiles, nowZ, "inspect", "payload", "e.binarypb")
@@ -786,7 +786,20 @@ func (m *model) judge(t ev.TB, f *fileRec, now time.Time, why string) {
 	if _, cerr, cpan := endorsementCLI(cliFiles, nowZ, "verify", "e.binarypb", "--root_cert=roots.pem"); cpan != nil {
 		m.report(t, "C03/verifier-panics", "gcetcbendorsement verify panicked: %v; %s", cpan, ctxLine)
 	} else if cerr != nil && verr == nil {
-		m.report(t, "C03/verify-command-rejects-pipeline-endorsement", "gcetcbendorsement verify --root_cert = %v although verify.Endorsement accepts; %s", cerr, ctxLine)
+		m.report(t, "C03/verify-command-rejects-pipeline-endorsement", "gcetcbendorsement verify --root_cert (PEM) = %v although verify.Endorsement accepts; %s", cerr, ctxLine)
+	}
+	// the same root handed over in DER, the form in which the storage-backed authority publishes it
+	// (--root_cert is documented as PEM or DER); a DER file is binary, its last byte is arbitrary
+	derWS := endsInASCIISpace(m.root.Raw)
+	if _, cerr, cpan := endorsementCLI(cliFiles, nowZ, "verify", "e.binarypb", "--root_cert=root.der"); cpan != nil {
+		m.report(t, "C03/verifier-panics", "gcetcbendorsement verify with a DER root panicked: %v; %s", cpan, ctxLine)
+	} else if cerr != nil && verr == nil {
+		m.report(t, "C03/verify-command-rejects-under-der-root", "gcetcbendorsement verify --root_cert (the authority's root in DER, %d bytes, last byte %#02x, ends in ASCII white space: %v) = %v although verify.Endorsement accepts under the same root; %s",
+			len(m.root.Raw), m.root.Raw[len(m.root.Raw)-1], derWS, cerr, ctxLine)
+	}
+	ev.Class("verify", "entry gcetcbendorsement verify --root_cert in DER")
+	if derWS {
+		ev.Class("verify", "entry gcetcbendorsement verify --root_cert in DER, root ends in ASCII white space")
 	}
 
 	// verbatim storage: the stored payload is what was handed to the signer
@@ -1146,6 +1159,9 @@ func (m *model) step(t ev.TB, a action) bool {
 		m.usedSer[a.SignCN+"\x00"+a.SignSerial] = true
 		m.usedSer[a.RootCN+"\x00"+a.RootSerial] = true
 		m.refreshPrimary()
+		if endsInASCIISpace(m.root.Raw) {
+			ev.Class("history", "authority root in DER ends in ASCII white space")
+		}
 	case "rotate":
 		collides := a.Collide || m.collides(a)
 		ev.Class("history", "rotation timestamp "+a.TimeKind)
